@@ -770,3 +770,86 @@ def effective_argument(caller, call, callee, param):
                 return clone(actual[n.id])
             return n
     return CT(U(ast.fix_missing_locations(R().visit(E))))
+
+
+def empty_roles_value(ctx, fn, v):
+    """Does the expression `v` (in function `fn`) evaluate to {'source': [], 'destination': [], 'src_dst': []}?  Folded with
+    the class / module constants it refers to (E9), so a literal, a dict comprehension over the role names, a (deep) copy
+    of a constant, or a comprehension over a constant's items all count. True / False / None (not foldable)."""
+    from .. import consteval
+    e = v
+    while True:
+        if isinstance(e, ast.Call) and (pm.call_name(e) or "").split(".")[-1] in ("deepcopy", "copy", "dict") and len(e.args) == 1:
+            e = e.args[0]
+        elif isinstance(e, ast.Call) and isinstance(e.func, ast.Attribute) and e.func.attr == "copy" and not e.args:
+            e = e.func.value
+        else:
+            break
+    g = dict(fn.module.globals)
+    selfobj = consteval.Obj()
+    if fn.cls is not None:
+        for k in ctx.repo.mro(fn.cls.name):
+            for a_, val in ctx.repo.cls(k).class_attrs.items():
+                if a_ in selfobj:
+                    continue
+                try:
+                    selfobj[a_] = consteval.ev(val, {"__globals__": g})
+                except (consteval.Unsupported, consteval.Raised):
+                    pass
+    env = {"self": selfobj, "cls": selfobj, "__globals__": g}
+    if fn.cls is not None:
+        env[fn.cls.name] = selfobj
+    try:
+        # `.items()` / `.keys()` of a folded dict
+        class _Items(ast.NodeTransformer):
+            def visit_Call(self, n):
+                self.generic_visit(n)
+                if isinstance(n.func, ast.Attribute) and n.func.attr in ("items", "keys", "values") and not n.args:
+                    return ast.copy_location(ast.Call(func=ast.Name(id="list", ctx=ast.Load()), args=[ast.Call(
+                        func=ast.Attribute(value=n.func.value, attr="__%s__" % n.func.attr, ctx=ast.Load()), args=[], keywords=[])], keywords=[]), n)
+                return n
+        val = _fold_with_items(e, env)
+    except (consteval.Unsupported, consteval.Raised):
+        return None
+    if not isinstance(val, dict):
+        return None
+    return set(val) == {"source", "destination", "src_dst"} and all(isinstance(x, (list, tuple)) and len(x) == 0 for x in val.values())
+
+
+def _fold_with_items(e, env):
+    """consteval.ev with `<dict>.items()/keys()/values()` supported"""
+    from .. import consteval
+    from ..flow import clone
+    e = clone(e)
+    holders = {}
+
+    class T(ast.NodeTransformer):
+        def visit_Call(self, n):
+            self.generic_visit(n)
+            if isinstance(n.func, ast.Attribute) and n.func.attr in ("items", "keys", "values") and not n.args and not n.keywords:
+                base = consteval.ev(n.func.value, env)
+                if isinstance(base, dict):
+                    nm = "__fold%d__" % len(holders)
+                    holders[nm] = [tuple(x) if n.func.attr == "items" else x for x in getattr(base, n.func.attr)()]
+                    return ast.copy_location(ast.Name(id=nm, ctx=ast.Load()), n)
+            return n
+    e = T().visit(e)
+    env2 = dict(env)
+    env2.update(holders)
+    # comprehension targets that are tuples: unpack by hand for dict comprehensions
+    if isinstance(e, ast.DictComp) and len(e.generators) == 1 and not e.generators[0].ifs:
+        g = e.generators[0]
+        items = consteval.ev(g.iter, env2)
+        out = {}
+        for it in items:
+            env3 = dict(env2)
+            if isinstance(g.target, ast.Name):
+                env3[g.target.id] = it
+            elif isinstance(g.target, ast.Tuple) and all(isinstance(t, ast.Name) for t in g.target.elts) and len(g.target.elts) == len(it):
+                for t, x in zip(g.target.elts, it):
+                    env3[t.id] = x
+            else:
+                raise consteval.Unsupported("comprehension target")
+            out[consteval.ev(e.key, env3)] = consteval.ev(e.value, env3)
+        return out
+    return consteval.ev(e, env2)
